@@ -639,7 +639,9 @@ def make_run_valid(work: str):
         o.key(hashlib.sha256(json.dumps([t.text for t in toks]).encode()).hexdigest()[:16])
         o.sample({"text": text, "extern": extern})
         weak = "intsize_after_nonhex" in ref.features
-        suspects = "".join("+" + r for r in RISKY if r in labels)
+        alt_comments: list = []
+        alt_labels = _layout_labels(alt, BD.tokenize(alt, alt_comments), alt_comments)
+        suspects = "".join("+" + r for r in RISKY if r in labels or r in alt_labels)
 
         def parse(src: str):
             try:
@@ -722,7 +724,10 @@ def make_run_unsupported(work: str):
         files = {k: bytes(v) for k, v in (case.get("files") or {}).items()}
         what = case.get("what", "?")
         stage = case.get("stage", "parse")
-        o.label("unsupported:" + what, "unsupported")
+        comments: list = []
+        lay = _layout_labels(text, BD.tokenize(text, comments), comments)
+        suspects = "".join("+" + r for r in RISKY if r in lay)
+        o.label("unsupported:" + what, "unsupported", *lay)
         o.nontrivial(True)
         o.key(("unsupported", what, hashlib.sha256(text.encode()).hexdigest()[:12]))
         o.sample({"text": text, "what": what})
@@ -741,7 +746,7 @@ def make_run_unsupported(work: str):
         if parsed is None:
             return  # refused (parse_sb21_config turns None into an error)
         if stage == "parse":
-            o.fail("unsupported", "accepted:" + what, "returned %s for\n%s" % (_r(parsed), text))
+            o.fail("unsupported", "accepted:" + what + suspects, "returned %s for\n%s" % (_r(parsed), text))
             return
         env = _env(work)
         root = _materialise(env, files)
@@ -749,7 +754,7 @@ def make_run_unsupported(work: str):
             img = _load_from_config(env, parsed, root)
         except Exception:  # noqa: BLE001
             return
-        o.fail("unsupported", "accepted:" + what, "load_from_config built %d sections for\n%s" % (len(img.boot_sections), text))
+        o.fail("unsupported", "accepted:" + what + suspects, "load_from_config built %d sections for\n%s" % (len(img.boot_sections), text))
 
     return run_unsupported
 
